@@ -19,6 +19,8 @@ box (3/4, 11/4) has
 so the MINMAXDIST of the box is below the MINDIST of the same box; on the well-formed four-object tree `fusedTree`
 both leaves are pruned and `NearestNeighbor((0,0))` raises the nil panic.  With every product rounded on its own
 (the code after the fix; `fMinDist`/`fMinMaxDist`) both values are 7, the branch is kept and object 0 is returned.
+Repaired by /repo 0fdcaaf (explicit `float64(...)` conversions: the Go specification forbids fusion across them), so the
+hypothesis of the float-level theorems now follows from the language specification, not from amd64 code generation.
 The float64 counterpart (emulated with `math.FMA`): NewTree(2,4), points (5.8,9.2) (9.9,6.3) (5.8,4.3) (2.1,5.8)
 (5.4,6.3) (9.9,5.4), NearestNeighbor((5.4,9.9)) panics.
 -/
